@@ -202,10 +202,11 @@ def step (s : Sys) (line : String) : Sys × String :=
     let args := rest.filter (fun x => !x.startsWith "$")
     match pNat sender, pNat target, pCall ns args, funds.mapM pFund with
     | some sd, some tg, some call, some fs =>
-      let (s', r) := s.exec (.wasm sd tg call fs)
+      let ((s', r), tr) := s.execT (.wasm sd tg call fs)
+      let trs := " trace=[" ++ ";".intercalate tr ++ "]"
       match r with
-      | .ok _ => (s', "ok | " ++ observe s')
-      | .error e => (s', "err:" ++ e ++ " | " ++ observe s')
+      | .ok _ => (s', "ok | " ++ observe s' ++ trs)
+      | .error e => (s', "err:" ++ e ++ " | " ++ observe s' ++ trs)
     | _, _, _, _ => bad
   | ["env", "advance", dt] => match pNat dt with
     | some n => let s' := s.env (.advance n); (s', "ok | " ++ observe s')
